@@ -520,10 +520,10 @@ class Gen:
 
 def generate(rng, scale, quick=True):
     g = Gen(rng)
-    g.gen_alg(40 * scale)
-    g.gen_mat(60 * scale)
-    g.gen_hnf(150 * scale)
-    g.gen_lat(70 * scale)
+    g.gen_alg(120 * scale)
+    g.gen_mat(150 * scale)
+    g.gen_hnf(400 * scale)
+    g.gen_lat(200 * scale)
     return g
 
 
